@@ -749,7 +749,7 @@ func main() {
 		e.pidIx[x.id.String()] = i + 1
 	}
 	switch a.Prop {
-	case "C20", "C22", "C24", "C25":
+	case "C20", "C21", "C22", "C24", "C25":
 		e.run()
 	default:
 		fmt.Println("unknown property", a.Prop)
